@@ -7,7 +7,7 @@ from ..harness import POISONS, poisoned_empty, qcall
 
 ID = "C08"
 LEVEL = "exploration"
-BUDGET = {"quick": 1200, "thorough": 20000}
+BUDGET = {"quick": 1200, "thorough": 400000}
 TECHNIQUE = "property-based testing: covering grid from the generator, bit-exact; poisoned numpy.empty differential; serial vs scheduled pool"
 RULE = ("Hypothesis-generated 2D plotfiles (rectangular domains with >= 4 cells per direction, non-zero origin, "
         "non-square boxes, 1-3 nested levels, any binary layout, special-float payloads) x field list (names in any "
